@@ -32,5 +32,23 @@ func genC04(repo string) (string, error) {
 		return "", err
 	}
 	o.strList("alloc_sites", sites, "callers of the one id allocator")
+	// the split handlers: an id that could not be allocated fails the whole request
+	cw, err := goast.Load(repo, "server/cluster/cluster_worker.go")
+	if err != nil {
+		return "", err
+	}
+	wopt := goast.SkelOpt{Calls: set("ValidRequestRegion", "Alloc"), Assigns: set("newRegionID", "peerIDs", "NewRegionId", "NewPeerIds"), Conds: true, Branches: true}
+	for _, fn := range []string{"HandleAskSplit", "HandleAskBatchSplit"} {
+		if err := o.skeleton(cw, "RaftCluster", fn, "skel_"+fn, wopt); err != nil {
+			return "", err
+		}
+	}
+	gs, err := goast.Load(repo, "server/grpc_service.go")
+	if err != nil {
+		return "", err
+	}
+	if err := o.skeleton(gs, "Server", "AllocID", "skel_handler_AllocID", goast.SkelOpt{Calls: set("validateRequest", "Alloc"), Assigns: set("Id"), Conds: true}); err != nil {
+		return "", err
+	}
 	return o.sb.String(), nil
 }
